@@ -6,6 +6,7 @@ import (
 	"bytes"
 	"encoding/json"
 	"fmt"
+	"github.com/mimecast/dtail/internal/config"
 	"github.com/mimecast/dtail/internal/server/handlers"
 	"github.com/mimecast/dtail/internal/source"
 	user "github.com/mimecast/dtail/internal/user/server"
@@ -22,6 +23,7 @@ func init() {
 func c10HandlerChild(args []string) int {
 	dir := args[0]
 	dt.Init(source.Server, "none", "none", "error", true)
+	config.Server.Permissions.Default = c10Permissions
 	// Commands which finish synchronously run the close handshake inside
 	// Write (up to 5s waiting for an ack which cannot arrive meanwhile), so many
 	// sessions are driven concurrently.
